@@ -140,14 +140,14 @@ func specParsed(p *FrameParser) bool {
 //@ inline
 //@ safety C09
 //@ requires[pre.nonnil]    p != nil
-//@ ensures[C01.ttlx]       ret0 == ((len(p.Layers) >= 2 && p.Layers[1] == layers.LayerTypeICMPv4 && int(p.ICMP4.TypeCode) == 11*256) || (len(p.Layers) >= 2 && p.Layers[1] == layers.LayerTypeICMPv6 && int(p.ICMP6.TypeCode) == 3*256))
+//@ ensures[C01+C02.ttlx]       ret0 == ((len(p.Layers) >= 2 && p.Layers[1] == layers.LayerTypeICMPv4 && int(p.ICMP4.TypeCode) == 11*256) || (len(p.Layers) >= 2 && p.Layers[1] == layers.LayerTypeICMPv6 && int(p.ICMP6.TypeCode) == 3*256))
 //@ modifies nothing
 
 //@ func (*FrameParser).IsDestinationUnreachable
 //@ inline
 //@ safety C09
 //@ requires[pre.nonnil]    p != nil
-//@ ensures[C01.unreach]    ret0 == ((len(p.Layers) >= 2 && p.Layers[1] == layers.LayerTypeICMPv4 && int(p.ICMP4.TypeCode)/256 == 3) || (len(p.Layers) >= 2 && p.Layers[1] == layers.LayerTypeICMPv6 && int(p.ICMP6.TypeCode)/256 == 1))
+//@ ensures[C01+C02.unreach]    ret0 == ((len(p.Layers) >= 2 && p.Layers[1] == layers.LayerTypeICMPv4 && int(p.ICMP4.TypeCode)/256 == 3) || (len(p.Layers) >= 2 && p.Layers[1] == layers.LayerTypeICMPv6 && int(p.ICMP6.TypeCode)/256 == 1))
 //@ modifies nothing
 
 //@ func (*FrameParser).GetICMPInfo
